@@ -6,17 +6,29 @@ SPEC = dict(
     level_text=(
         "Machine-checked theorems (Coq, no axioms) over an executable model of light availability sampling at interleaving granularity "
         "(every SharesAvailable call advances one shared-state access at a time: session LoadOrStore / wait / Get + load-or-draw / persist / "
-        "close / Delete; getter answers, context aborts, crash and restart are events of the environment), for ALL histories and schedules: "
+        "close / Delete; getter answers, context aborts, crash and restart are events of the environment, and so are FAULTS OF THE DATASTORE the "
+        "result is persisted in: the Get of the previous result failing with an error other than ErrNotFound - I/O error, or a context-aware "
+        "datastore seeing a cancelled/expired context - and the Put/Flush of storeResult failing, at the eager persist of a fresh draw and at the "
+        "persist after a getter answer, at each point where autobatch can fail: before the write buffer is emptied / at Commit / in a second "
+        "flush), for ALL histories and schedules: "
         "avail_sound (success => a duplicate-free in-square set of >= min(count, w*w) coordinates, each returned non-empty by the getter at its "
         "own position for this root), served_genuine/served_verified (what 'returned non-empty' means; 'verified' is the hypothesis the getter, "
         "C06, must supply), session_mutex (one call per height inside its session), requests_are_pending / pending_step / pending_stable "
         "(the persisted set never changes, a coordinate leaves 'remaining' only through a non-empty answer at its position, every request asks "
         "for exactly the persisted remaining list - across retries, concurrent calls, crash and restart), draw_ok (every byte stream of "
         "crypto/rand yields exactly min(count, w*w) distinct in-square coordinates) and draw_reaches_every_cell (no cell of the square is "
-        "excluded by construction). The model follows the REPAIRED code (branches fix-c03-1, "
-        "fix-c03-2); for the code before the repairs the two pending_stable_original_*_refuted witnesses are proved and replayed. The model is "
+        "excluded by construction); load_fault_inert (a call whose load fails returns that error, never 'available', and changes nothing: not the "
+        "durable result, not the write buffer, no coordinate, no other call; nothing is drawn), store_fault_safe / store_fault_verdict (a failed "
+        "store leaves every persisted result exactly as it was or - only the second flush failed - as answered by the failing call's own answer; it "
+        "never turns a pending coordinate into a sampled one, never changes the set; the call returns an error) and rerequest_exactly_pending (after "
+        "ANY history incl. datastore faults a later call asks for a durable list that is part of the first draw's pending coordinates; with the "
+        "Getter contract the set is unchanged and every pending coordinate not asked for again was handed back non-empty for this root). "
+        "The model follows the REPAIRED code (branches fix-c03-1, fix-c03-2, fix-c03-3); for the code before the repairs the "
+        "pending_stable_original_*_refuted witnesses and pending_stable_keepbuf_refuted (fix-c03-3: a failed flush left the draw readable in the "
+        "autobatch buffer but not durable; retry requests it, crash, next call redraws) are proved and replayed on the real code. The harness probes "
+        "on the real code whether the tree has fix-c03-3 and ties it to the matching model variant (the theorems are about the repaired one). The model is "
         "re-validated on every run against the real ShareAvailability driven through ~700 generated concurrent histories (scripted getter, "
-        "scripted crypto/rand.Reader, crash/restart over a shared datastore) plus ~1000 draws. Partial: unpredictability/uniformity of "
+        "scripted crypto/rand.Reader, scripted datastore faults, crash/restart over a shared datastore) plus ~1000 draws. Partial: unpredictability/uniformity of "
         "crypto/rand is outside any model (the draw stream is an input; a chi-square statistic over real draws is reported); validity of a "
         "non-empty sample is the getter's obligation (C06)."),
     rule=(
@@ -24,26 +36,37 @@ SPEC = dict(
         "the window), SampleAmount 0..area+3, write-batch 0..2 or 2048, 1-4 concurrent calls, 5-17 scheduled ops out of {call (6% with a "
         "cancelled context), getter answer (all / random subset / none served / nil / empty slice / one missing / SHORTER / LONGER than requested, "
         "x error none|other|deadline|canceled), abort of a waiting call (canceled|deadline), crash (no Close), restart (Close), 6% with a "
-        "changed SampleAmount}; observed per op: blocked | coordinates handed to the getter | verdict class, and the durable JSON of every root "
-        "whenever it changed. A history is non-trivial when it contains a partial/empty/failed answer AND (a crash/restart OR a call that had "
+        "changed SampleAmount}; datastore faults: 13% of the calls and 14% of the answers arm the scripted datastore to fail the 1st/2nd "
+        "Get | Batch() | batch.Put | Commit issued for that call with an I/O error; 25% of the histories run on a context-aware datastore "
+        "(every operation with a done context fails with ctx.Err(): pre-cancelled callers, and 'cancel' ops that end the context of a call "
+        "inside the getter); what failed is observed from the datastore's operation log (load | store x SfEarly/SfCommit/SfSecond x "
+        "other/canceled/deadline) and is part of the case; 11 fixed histories (5 of the earlier defects, 6 with datastore faults); observed per op: blocked | coordinates handed to the getter | verdict class, and the durable JSON of every root "
+        "whenever it changed. L3 oracle (no model): success only when every coordinate of the first draw was served; a call whose load failed "
+        "returned an error, never reached the getter, and the durable bytes of its root are unchanged; a call whose store failed returned an error; "
+        "the coordinates handed to the getter are the never-served ones of the first draw (after a failed store: plus possibly served-but-unrecorded "
+        "ones of that draw); persisted available+remaining is the first draw and 'available' only holds served coordinates. A history is non-trivial when it contains a partial/empty/failed answer AND (a crash/restart OR a call that had "
         "to wait for a session). draw groups: (width, count, bytes read from the scripted crypto/rand.Reader, coordinates requested): "
         "the model must consume exactly these bytes and produce exactly this set; widths 1..600. distinct = distinct Coq case term."),
     trusted_base=[
         "model Light/Sampling.v hand-written after share/availability/light/{availability.go,sample.go,options.go}, libs/utils/sessions.go, "
-        "share/availability/window.go (as a boolean input) and go-datastore/autobatch (Get/Put/Flush/threshold); tied by the correspondence "
+        "share/availability/window.go (as a boolean input) and go-datastore/autobatch (Get/Put/Flush/threshold, and what a Flush that fails "
+        "at Batch()/batch.Put, at Commit, or the second time leaves in buffer and datastore); tied by the correspondence "
         "harness harness/share/availability/light/zz_verif_c03_test.go whose observations are re-computed by the model inside Coq (vm_compute) on every run",
         "crypto/rand.Int (Go standard library) is modelled (bit length, byte count, mask, rejection loop), not verified; under the same correspondence "
         "through a scripted crypto/rand.Reader. Unpredictability and uniformity of the real reader are outside the model; chi-square reported as a test",
         "the order in which coordinates leave the Go map in selectRandomSamples is unspecified: the model takes it as an input (any permutation); "
         "because of it the ORDER of coordinates (not the set, not the verdicts) in the generated cases differs between two runs with the same seed",
         "the harness mocks: shwap.Getter (scripted, blocks until answered), context (controllable Done/Err/Deadline), datastore "
-        "(in-memory map shared by the instances of a scenario; an instance that crashed can no longer write), headers (fake row/column roots; "
+        "(in-memory map shared by the instances of a scenario behind a scripted wrapper: an instance that crashed can no longer write; an armed "
+        "child operation fails with an I/O error; in context-aware scenarios every operation with a done context fails; a failed Commit writes "
+        "NOTHING - partial commits of a multi-key batch and 'written but reported failed' commits are not produced), headers (fake row/column roots; "
         "SharesAvailable never verifies them); scheduling is controlled by the getter gate and observed through goroutine states "
         "(runtime.Stack: calls parked in Sessions.StartSession) - no sleeps decide an outcome",
         "Go runtime semantics of sync.Map, channels and select are modelled at the granularity of whole operations (LoadOrStore, close, Delete, "
         "receive-or-ctx.Done); dsLk makes datastore accesses atomic",
-        "not modelled: Prune (it runs for headers outside the window, for which SharesAvailable short-circuits), datastore I/O errors and JSON "
-        "corruption (the call returns the error before any state change), SampleAmount >= 2^63, two different heights carrying the same data root "
+        "not modelled: Prune (it runs for headers outside the window, for which SharesAvailable short-circuits; with fix-c03-3 a failed store "
+        "also drops a buffered, not yet flushed Delete of Prune: the pruned result then stays as garbage), JSON corruption of a stored result "
+        "(the call returns the error before any state change), a datastore that loses or alters data it acknowledged, SampleAmount >= 2^63, two different heights carrying the same data root "
         "(pending_stable assumes width and height are functions of the root: hypothesis ev_chain)",
         "'retrieved with a valid proof': light availability never calls Sample.Verify; avail_sound is relative to 'returned non-empty by the getter' "
         "and C03_served_verified states the hypothesis the getter (C06) must supply; the consequence of shrex GetSamples returning an unverified "
